@@ -1,5 +1,5 @@
 (* C20_check.v — case types, model runners and executable property checks for the C20 correspondence. *)
-Require Export Verif.Model.Base Verif.Model.Codec.
+Require Export Verif.Model.Base Verif.Model.Codec Verif.Model.JsonText.
 From Coq Require Strings.String Strings.Ascii Uint63.
 Export Coq.Strings.String.StringSyntax.
 Delimit Scope string_scope with str.
@@ -64,6 +64,8 @@ Inductive leaf_out :=
 | OBig (z : option Z)
 | ON (n : N).
 
+(* {"nonce":<content>} as RampMessageHeader sees it (its other members are absent from the document) *)
+Definition nonce_ty : ty := TStruct [([110; 111; 110; 99; 101]%N, TUint max64)].
 Definition obytes (o : option (list N)) : leaf_out := match o with Some l => OBytes false l | None => OErr end.
 Definition leaf_model (i : leaf_in) : leaf_out :=
   match i with
@@ -78,7 +80,13 @@ Definition leaf_model (i : leaf_in) : leaf_out :=
   | LSeqStr n => OText (dec_enc n)
   | LUintQ s => match uint_dec max64 0 s with Some n => ON n | None => OErr end
   | LUintKey s => match uint_parse max64 s with Some n => ON n | None => OErr end
-  | LUintNum s => match uint_dec max64 0 s with Some n => ON n | None => OErr end
+  | LUintNum s =>
+      (* the content stands unquoted inside the document, so the text layer sees it first: white space around the
+         number is skipped by the scanner (" 1" and "1 " decode to 1) *)
+      match decode_text nonce_ty ([123; 34; 110; 111; 110; 99; 101; 34; 58]%N ++ s ++ [125]%N) with
+      | Some (VRec [VU n]) => ON n
+      | _ => OErr
+      end
   end.
 Definition leaf_oeqb (a b : leaf_out) : bool :=
   match a, b with
@@ -115,44 +123,82 @@ Definition leaf_ok (i : leaf_in) (o : leaf_out) : bool :=
   end.
 Definition leaf_judge := judge leaf_model leaf_oeqb leaf_ok (fun _ => 0%N).
 
-(* ================= part struct: Encode / Decode pairs of the wire types ================= *)
-(* input: type descriptor (derived from the Go type by reflection), the value, and for foreign cases the tree that
-   was serialised and fed to Decode.
-   output: honest: (tree of Encode v, Decode (Encode v), Encode (Decode (Encode v)) has the same bytes)
-           foreign: (tree of Encode v' or JNull, Decode bytes = v' or error, Encode (Decode (Encode v')) same bytes) *)
-Definition struct_in := (ty * val * option json)%type.
-Definition struct_out := (json * option val * bool)%type.
+(* ================= part struct: Encode / Decode pairs of the wire types, at byte level ================= *)
+(* input: type descriptor (derived from the Go type by reflection), the value, and for foreign cases the bytes that
+   were fed to Decode.
+   output: honest: (bytes of Encode v, Decode (Encode v), Encode (Decode (Encode v)) has the same bytes)
+           foreign: (bytes of Encode v' or empty, Decode bytes = v' or error, Encode (Decode (Encode v')) same bytes)
+   The model prints and parses the bytes itself (Model/JsonText.v composed with Codec.enc / Codec.dec). *)
+Definition struct_in := (ty * val * option (list N))%type.
+Definition struct_out := (list N * option val * bool)%type.
 Definition struct_model (i : struct_in) : struct_out :=
   let '(t, v, f) := i in
   match f with
-  | None => let j := enc t v in (j, dec t (zero t) j, true)
-  | Some j' =>
-      match dec t (zero t) j' with
-      | Some v' => (enc t v', Some v', true)
-      | None => (JNull, None, true)
+  | None => let b := encode_text t v in (b, decode_text t b, true)
+  | Some fb =>
+      match decode_text t fb with
+      | Some v' => (encode_text t v', Some v', true)
+      | None => ([], None, true)
       end
   end.
 Definition struct_oeqb (a b : struct_out) : bool :=
   let '(j, d, fl) := a in let '(j', d', fl') := b in
-  json_eqb j j' && option_eqb val_eqb d d' && Bool.eqb fl fl'.
+  text_eqb j j' && option_eqb val_eqb d d' && Bool.eqb fl fl'.
 Definition struct_ok (i : struct_in) (o : struct_out) : bool :=
   let '(t, v, f) := i in
-  let '(j, d, fl) := o in
+  let '(b, d, fl) := o in
   wf_ty t &&
   match f with
   | None =>
-      (* honest value: well-typed, decodes to the normalised original, re-encodes to the same bytes *)
-      wt t v && fl && match d with Some v' => val_eqb v' (norm t v) | None => false end
+      (* honest value: well-typed, its tree inside the modelled text subset (so C20_wire_roundtrip applies), the
+         implementation decodes its own bytes to the normalised original and re-encodes them to the same bytes, and
+         the bytes it emitted decode under the model to the normalised original *)
+      wt t v && wf_json (enc t v) && fl &&
+      match d with Some v' => val_eqb v' (norm t v) | None => false end &&
+      option_eqb val_eqb (decode_text t b) (Some (norm t v))
   | Some _ =>
-      (* accepted foreign bytes: the decoded value is well-typed (so C20_struct_roundtrip applies to it), its
-         encoding is the model's, and decode-encode is idempotent on it *)
+      (* accepted foreign bytes: the decoded value is well-typed and inside the subset (so the theorems apply to
+         it), its encoding is the model's, and decode-encode is idempotent on it *)
       match d with
       | None => true
-      | Some v' => wt t v' && fl && json_eqb j (enc t v') &&
-                   option_eqb val_eqb (dec t (zero t) j) (Some (norm t v'))
+      | Some v' => wt t v' && wf_json (enc t v') && fl && text_eqb b (encode_text t v') &&
+                   option_eqb val_eqb (decode_text t b) (Some (norm t v'))
       end
   end.
 Definition struct_judge := judge struct_model struct_oeqb struct_ok (fun _ => 0%N).
+
+(* ================= part json: the text layer against encoding/json itself ================= *)
+(* jprint: a tree of the modelled subset, marshalled by encoding/json (through a MarshalJSON tree type that delegates
+   strings to the standard encoder, or as native []any / map[string]any / string / json.Number values);
+   output = the bytes Go emitted.  Model: print.  Property on Go's bytes: they parse back to the tree. *)
+Definition jprint_model (j : json) : list N := print j.
+Definition jprint_ok (j : json) (b : list N) : bool :=
+  wf_json j && option_eqb json_eqb (parse b) (Some j).
+Definition jprint_judge := judge jprint_model text_eqb jprint_ok (fun _ => 0%N).
+
+(* jparse: a byte string (valid with white space / alternative escapes / duplicate members, or malformed) given to
+   json.Valid and walked with json.Decoder.Token (UseNumber) into an order-preserving tree.
+   input: (accept_only, bytes); output: the tree Go built, or None for an error; with accept_only (inputs whose
+   tree would be too deep to write down) only whether Go accepted.
+   Model: parse.  Property on Go's tree: it lies in the subset and print-then-parse gives it back. *)
+Inductive jparse_out := PTree (o : option json) | PAcc (b : bool).
+Definition jparse_model (i : bool * list N) : jparse_out :=
+  let '(acc, s) := i in
+  if acc then PAcc (match parse s with Some _ => true | None => false end) else PTree (parse s).
+Definition jparse_oeqb (a b : jparse_out) : bool :=
+  match a, b with
+  | PTree x, PTree y => option_eqb json_eqb x y
+  | PAcc x, PAcc y => Bool.eqb x y
+  | _, _ => false
+  end.
+Definition jparse_ok (i : bool * list N) (o : jparse_out) : bool :=
+  match o with
+  | PTree (Some j) => wf_json j && option_eqb json_eqb (parse (print j)) (Some j)
+  | _ => true
+  end.
+Definition jparse_judge := judge jparse_model jparse_oeqb jparse_ok (fun _ => 0%N).
+(* n copies of a text (deep nesting cases) *)
+Definition nrep (n : N) (w : list N) : list N := concat (repeat w (N.to_nat n)).
 
 (* ================= part sort: canonical order of the outcome encoders ================= *)
 (* kind 0: commit Outcome.Encode, three lists of (chain, payload id);
